@@ -245,3 +245,122 @@ Proof.
       * intros Hhd. destruct (HH h k q hd Hk Ha Hhd) as [Hp Hin]. split; auto.
     + intros Hk0 Ha0 Hhd. destruct (HH hi k0 q hd Hk0 Ha0 Hhd) as [Hp Hin]. split; auto.
 Qed.
+
+(* removing handles *)
+Definition matches (o : option handle) (m : nat) (q : bool) (e : entry) : Prop :=
+  exists hd, o = Some hd /\ hd_mod hd = m /\ hd_pre hd = q /\ hd_id hd = e_id e.
+
+Lemma in_detach_one mods o m q e :
+  In e (mod_lst (detach_one mods o) m q) <-> In e (mod_lst mods m q) /\ ~ matches o m q e.
+Proof.
+  destruct o as [hd|]; simpl.
+  - rewrite mod_lst_remove.
+    destruct (Nat.eqb_spec (hd_mod hd) m) as [Em|Em]; simpl.
+    + destruct (Bool.eqb_spec (hd_pre hd) q) as [Eq|Eq]; simpl.
+      * rewrite in_remove_id. split; intros [H1 H2]; split; auto.
+        -- intros [hd' [E [_ [_ E3]]]]; inversion E; subst hd'; congruence.
+        -- intros E; apply H2. exists hd; auto.
+      * split; [intros H; split; auto|tauto]. intros [hd' [E [_ [E2 _]]]]; inversion E; subst; congruence.
+    + split; [intros H; split; auto|tauto]. intros [hd' [E [E2 _]]]; inversion E; subst; congruence.
+  - split; [intros H; split; auto|tauto]. intros [hd' [E _]]; discriminate.
+Qed.
+
+Lemma nodup_detach_one mods o m q :
+  NoDup (map e_id (mod_lst mods m q)) -> NoDup (map e_id (mod_lst (detach_one mods o) m q)).
+Proof.
+  destruct o as [hd|]; simpl; auto. rewrite mod_lst_remove.
+  destruct (_ && _); auto. apply NoDup_map_filter.
+Qed.
+
+Lemma in_detach mods a b m q e :
+  In e (mod_lst (detach_handles mods a b) m q) <-> In e (mod_lst mods m q) /\ ~ matches a m q e /\ ~ matches b m q e.
+Proof. unfold detach_handles. rewrite !in_detach_one. tauto. Qed.
+
+(* detaching the handles a live hook object holds, while the object loses them (deregister) or dies (delete) *)
+Lemma sinv_detach w h k k' :
+  SInv w -> nth_error (w_hooks w) h = Some k -> k_alive k = true ->
+  (k_alive k' = false \/ forall pre, hnd k' pre = None) ->
+  SInv (mkW (upd (w_hooks w) h k') (detach_handles (w_mods w) (k_preh k) (k_posth k)) (w_next w)).
+Proof.
+  intros [HE HN HH] Hk Ha Hk'.
+  pose proof (nth_error_Some_lt _ _ _ Hk) as Hlt.
+  constructor; simpl.
+  - intros m q e Hin. apply in_detach in Hin. destruct Hin as [Hin [Hna Hnb]].
+    destruct (HE m q e Hin) as [Hid [k0 [Hk0 [Ha0 [Hh0 Hal0]]]]]. split; simpl; auto.
+    rewrite nth_error_upd_neq; [exists k0; auto|].
+    intros Eh. rewrite <- Eh, Hk in Hk0; inversion Hk0; subst k0.
+    destruct q; simpl in Hh0.
+    + apply Hna. eexists; split; eauto.
+    + apply Hnb. eexists; split; eauto.
+  - intros m q. unfold detach_handles. apply nodup_detach_one, nodup_detach_one, HN.
+  - intros hi k0 q hd. unfold handle_ok; simpl. rewrite nth_error_upd.
+    destruct (Nat.eqb_spec h hi) as [<-|E]; simpl.
+    + apply Nat.ltb_lt in Hlt; rewrite Hlt. intros Hk0 Ha0 Hh0; inversion Hk0; subst k0.
+      destruct Hk' as [Hd|Hn]; [congruence|]. rewrite Hn in Hh0; discriminate.
+    + intros Hk0 Ha0 Hh0. destruct (HH hi k0 q hd Hk0 Ha0 Hh0) as [Hp Hin]. split; auto.
+      apply in_detach. split; auto.
+      assert (Hno : forall p hd', hnd k p = Some hd' -> ~ matches (Some hd') (hd_mod hd) q
+                       {| e_id := hd_id hd; e_hook := hi; e_always := alw (k_cfg k0) q |}).
+      { intros p hd' Hh' [hd'' [E1 [E2 [E3 E4]]]]. inversion E1; subst hd''. simpl in E4.
+        destruct (HH h k p hd' Hk Ha Hh') as [Hp' Hin']. rewrite E2 in Hin'. rewrite E3 in Hp'. subst p.
+        pose proof (NoDup_map_inj e_id _ _ _ (HN (hd_mod hd) q) Hin Hin') as Heq.
+        simpl in Heq. specialize (Heq (eq_sym E4)). inversion Heq. congruence. }
+      split.
+      * destruct (k_preh k) as [hd'|] eqn:Ep; [apply (Hno true); auto|]. intros [? [? _]]; discriminate.
+      * destruct (k_posth k) as [hd'|] eqn:Ep; [apply (Hno false); auto|]. intros [? [? _]]; discriminate.
+Qed.
+
+(* replacing a hook object by one with the same handles, liveness and configuration *)
+Lemma sinv_same w h k k' :
+  SInv w -> nth_error (w_hooks w) h = Some k ->
+  k_alive k' = k_alive k -> k_cfg k' = k_cfg k -> k_preh k' = k_preh k -> k_posth k' = k_posth k ->
+  SInv (mkW (upd (w_hooks w) h k') (w_mods w) (w_next w)).
+Proof.
+  intros [HE HN HH] Hk E1 E2 E3 E4.
+  pose proof (nth_error_Some_lt _ _ _ Hk) as Hlt. apply Nat.ltb_lt in Hlt.
+  assert (Eh : forall p, hnd k' p = hnd k p) by (destruct p; simpl; auto).
+  constructor; simpl; auto.
+  - intros m q e Hin. destruct (HE m q e Hin) as [Hid [k0 [Hk0 [Ha0 [Hh0 Hal0]]]]]. split; simpl; auto.
+    rewrite nth_error_upd. destruct (Nat.eqb_spec h (e_hook e)) as [E|E]; simpl.
+    + rewrite Hlt. exists k'. rewrite <- E, Hk in Hk0. inversion Hk0; subst k0. rewrite Eh, E1, E2; auto.
+    + exists k0; auto.
+  - intros hi k0 q hd. unfold handle_ok; simpl. rewrite nth_error_upd.
+    destruct (Nat.eqb_spec h hi) as [<-|E]; simpl.
+    + rewrite Hlt. intros Hk0 Ha0 Hh0; inversion Hk0; subst k0. rewrite E2. rewrite Eh in Hh0. rewrite E1 in Ha0.
+      apply (HH h k q hd Hk Ha0 Hh0).
+    + intros Hk0 Ha0 Hh0. apply (HH hi k0 q hd Hk0 Ha0 Hh0).
+Qed.
+
+(* a fresh hook object without handles *)
+Lemma sinv_new w k :
+  SInv w -> k_preh k = None -> k_posth k = None -> SInv (mkW (w_hooks w ++ [k]) (w_mods w) (w_next w)).
+Proof.
+  intros [HE HN HH] E1 E2. constructor; simpl; auto.
+  - intros m q e Hin. destruct (HE m q e Hin) as [Hid [k0 [Hk0 [Ha0 [Hh0 Hal0]]]]]. split; simpl; auto.
+    exists k0; split; auto. apply nth_error_snoc_old; auto.
+  - intros hi k0 q hd Hk0 Ha0 Hh0. unfold handle_ok; simpl.
+    apply nth_error_snoc in Hk0. destruct Hk0 as [Hk0|[_ ->]].
+    + apply (HH hi k0 q hd Hk0 Ha0 Hh0).
+    + destruct q; simpl in Hh0; congruence.
+Qed.
+
+(* changing the training flag of a module *)
+Lemma mod_lst_train mods m md b m' q :
+  nth_error mods m = Some md ->
+  mod_lst (upd mods m (mkMod b (m_pre md) (m_post md))) m' q = mod_lst mods m' q.
+Proof.
+  intros E. unfold mod_lst. rewrite nth_error_upd.
+  destruct (Nat.eqb_spec m m') as [<-|]; simpl; auto.
+  rewrite (proj2 (Nat.ltb_lt _ _) (nth_error_Some_lt _ _ _ E)), E. destruct q; reflexivity.
+Qed.
+
+Lemma sinv_train w m md b :
+  SInv w -> nth_error (w_mods w) m = Some md ->
+  SInv (mkW (w_hooks w) (upd (w_mods w) m (mkMod b (m_pre md) (m_post md))) (w_next w)).
+Proof.
+  intros [HE HN HH] E. constructor; simpl.
+  - intros m' q e. rewrite (mod_lst_train _ _ _ _ _ _ E). intros Hin. apply (HE m' q e Hin).
+  - intros m' q. rewrite (mod_lst_train _ _ _ _ _ _ E). auto.
+  - intros hi k q hd H1 H2 H3. unfold handle_ok; simpl. rewrite (mod_lst_train _ _ _ _ _ _ E).
+    apply (HH hi k q hd H1 H2 H3).
+Qed.
